@@ -51,6 +51,22 @@ def duplicated_section_cases():
     return out
 
 
+def two_step_cases(bases):
+    """ONE new index-less location and ONE new nameless switch, referred to by triggers that are added in two separate
+    editor calls: both references must denote the same slot"""
+    out = []
+    for label, base in bases[:2]:
+        spec = {"pool": {"locs": [[3, 4, 50, 60, None, None, [True] * 6]], "cuwps": [], "switches": [[None, None]]},
+                "ops": [["add_triggers", [{"conds": [], "players": [0], "acts": [
+                            ["rich", 10, [["_location", [2, 0]]], [False] * 5],
+                            ["rich", 13, [["_switch", [8, 0]], ["_switch_action", [1, 4]]], [False] * 5]]}]],
+                        ["add_triggers", [{"conds": [], "players": [1], "acts": [
+                            ["rich", 10, [["_location", [2, 0]]], [False] * 5],
+                            ["rich", 13, [["_switch", [8, 0]], ["_switch_action", [1, 5]]], [False] * 5]]}]]]}
+        out.append((f"{label}:two-step", base, spec))
+    return out
+
+
 def run(ck: vlib.Check):
     n = 80 if ck.tier == "quick" else 3000
     ck.rule = ("authored scenarios on the scx fixture and synthetic bases: triggers using every supported condition / "
@@ -69,7 +85,7 @@ def run(ck: vlib.Check):
         cases.append((f"{label}#{i}", base, A.gen_scenario(rng, base)))
     known, _ = vlib.load_known_findings(PROP)
     known_keys = {f["key"]: f["text"] for f in known}
-    cases = duplicated_section_cases() + cases
+    cases = duplicated_section_cases() + two_step_cases(bs) + cases
     impl = []
     types_seen = {"actions": set(), "conditions": set()}
     outcomes = {"ok": 0, "raises": 0}
